@@ -55,6 +55,8 @@ def gen_scenario(rng, i, with_boom=None):
             o["from_state"] = {str(j): scengen.rows(rng, 1, odim[j])[0] for j in ids}
         if rng.random() < 0.3:
             o.update(op="call", x=scengen.rows(rng, 1, din)[0])
+        elif rng.random() < 0.2 and not with_boom and not single:
+            o.update(op="runs", Xs=[scengen.rows(rng, rng.randint(1, 3), din) for _ in range(rng.randint(2, 3))])
         else:
             o.update(op="run", X=scengen.rows(rng, rng.randint(1, 4), din))
         sc["ops"].append(o)
